@@ -643,6 +643,12 @@ def run(ctx):
         raise AnalysisError("anchor: Walker.walk(start, end) signature changed: %s" % (w.posparams,))
     start, end = ps
     cfg = typer.cfg_of(w)
+    # the rules below follow ONE way of computing the walk: from the two root-down paths.  An implementation that climbs the
+    # parent links itself (depths, lock-step ascent, ...) is not followed.
+    if not any(isinstance(n_, ast.Attribute) and n_.attr in ("path", "_path", "ancestors") for n_ in ast.walk(w.node)) and not any(
+            isinstance(n_, ast.Call) and norm(n_.func).endswith("iter_path_reverse") for n_ in ast.walk(w.node)):
+        raise AnalysisError("C15: Walker.walk does not compute the walk from the two root-down paths (no .path/.ancestors read): this "
+                            "implementation is not followed")
     ev = Evaluator(ctx, typer, w, start, end)
     rets = cfg.stmt_nodes(("return",))
     if not rets:
